@@ -31,6 +31,8 @@ CONSTANTS
   CorruptMode,      \* "report": checksum mismatch without valid backup is an error (the property, C23)
                     \* "serve" : readAndRestoreBlock returns nil and the buffer is used (code as read: finding)
   ReaderDeletes,    \* TRUE: the unlocked read procedure deletes a backup file when the block verifies (code as read)
+  ReaderRestores,   \* TRUE: the unlocked read procedure writes the block back from a valid backup (code as read);
+                    \* FALSE: it only serves the backup's content, the block is repaired under the lock
   AllowDeleteFresh, \* finding action (DESIGN 7 row 12): such a deletion hits the backup of a write in flight
   ReaderCrash       \* TRUE: a reader may die in the middle of its restore write
 
@@ -152,17 +154,22 @@ DeleteStaleBackup(a) ==
 CheckBackup(a) ==
   /\ Live(a) /\ At(a, "checkcow")
   /\ IF CowValid
-       THEN /\ cbuf' = [cbuf EXCEPT ![a] = cow.c]
-            /\ Goto(a, <<Phase(a), "restore">>)
-            /\ act' = Label("CheckBackup", a, 0)
-            /\ UNCHANGED <<ret, used>>
-       ELSE /\ UNCHANGED cbuf
+       THEN IF Phase(a) \in {"r", "f"} /\ ~ReaderRestores
+              THEN /\ buf' = [buf EXCEPT ![a] = cow.c]
+                   /\ Complete(a, cow.c)
+                   /\ act' = Label("ServeBackup", a, 0)
+                   /\ UNCHANGED <<cbuf, used>>
+              ELSE /\ cbuf' = [cbuf EXCEPT ![a] = cow.c]
+                   /\ Goto(a, <<Phase(a), "restore">>)
+                   /\ act' = Label("CheckBackup", a, 0)
+                   /\ UNCHANGED <<buf, ret, used>>
+       ELSE /\ UNCHANGED <<buf, cbuf>>
             /\ IF CorruptMode = "report"
                  THEN Fail(a) /\ act' = Label("ReportCorrupt", a, 0) /\ UNCHANGED used
                  ELSE \* no / empty / truncated / invalid backup: readAndRestoreBlock returns nil
                       /\ Complete(a, buf[a]) /\ used' = used \cup {"servecorrupt"}
                       /\ act' = Label("ServeCorrupt", a, 0)
-  /\ UNCHANGED <<lay, blk, cow, lock, buf, wimg, crashes, inflight>>
+  /\ UNCHANGED <<lay, blk, cow, lock, wimg, crashes, inflight>>
 
 \* restoreFromCow: copy the backup into the buffer and write it over the block (no lock in phases r, f).
 RestoreFromBackup(a) ==
@@ -177,6 +184,15 @@ ReturnRestored(a) ==
   /\ Live(a) /\ At(a, "restored")
   /\ Complete(a, buf[a])
   /\ act' = Label("ReturnRestored", a, 0)
+  /\ UNCHANGED <<lay, blk, cow, lock, buf, cbuf, wimg, crashes, inflight, used>>
+
+\* registryMap.set / remove look at the handle decoded from the (served) buffer before taking the lock and fail when
+\* it is not the expected one.  With flipped bits in the buffer the outcome of that comparison is arbitrary.
+CallerRejectsDecoded(w) ==
+  /\ pc[w] = <<"w", "lock">> /\ buf[w].x # "none"
+  /\ ret' = [ret EXCEPT ![w] = [res |-> "err", val |-> 0, valid |-> TRUE]]
+  /\ Goto(w, Done)
+  /\ act' = Label("CallerRejectsDecoded", w, 0)
   /\ UNCHANGED <<lay, blk, cow, lock, buf, cbuf, wimg, crashes, inflight, used>>
 
 LockBlock(w) ==
@@ -244,7 +260,7 @@ Crash(a, kind, p) ==
 
 Step(a) == \/ ReadBlock(a) \/ VerifyCRC(a) \/ DeleteStaleBackup(a) \/ CheckBackup(a)
            \/ RestoreFromBackup(a) \/ ReturnRestored(a)
-           \/ (a \in Wr /\ (LockBlock(a) \/ CreateBackup(a) \/ WriteBlock(a) \/ DeleteBackup(a) \/ Unlock(a)))
+           \/ (a \in Wr /\ (CallerRejectsDecoded(a) \/ LockBlock(a) \/ CreateBackup(a) \/ WriteBlock(a) \/ DeleteBackup(a) \/ Unlock(a)))
 
 DefaultImg(a) == IF a = "w1" THEN InitImg + 1 ELSE IF a = "w2" THEN InitImg + 2 ELSE 0
 CrashKinds == {"plain", "torn", "cowempty", "cowpartial"}
@@ -256,6 +272,7 @@ Next == \/ \E a \in Actors : Begin(a, DefaultImg(a))
         \/ \E a \in Actors : CheckBackup(a)
         \/ \E a \in Actors : RestoreFromBackup(a)
         \/ \E a \in Actors : ReturnRestored(a)
+        \/ \E w \in Wr : CallerRejectsDecoded(w)
         \/ \E w \in Wr : LockBlock(w)
         \/ \E w \in Wr : CreateBackup(w)
         \/ \E w \in Wr : WriteBlock(w)
@@ -289,6 +306,28 @@ ReadIsOldOrNew == (used = {}) => Strict
 \*  against a restarting writer that restored the block and removed the backup, finds no backup and serves
 \*  its stale, unverified buffer - the same defect as C23's, reached without any reader deleting anything.)
 ServeOnlyAfterDeleteFresh == ("servecorrupt" \in used) => ("deletefresh" \in used)
+
+-----------------------------------------------------------------------------
+(* C23: the environment has flipped bits in the block (and/or left any kind of backup file behind). *)
+Flipped(i) == [Image(i) EXCEPT !.x = "flip"]
+InitC23 ==
+  /\ lay \in Layouts
+  /\ blk \in {Image(InitImg), Flipped(InitImg)}
+  /\ cow \in {NoCow, [k |-> "empty", c |-> NilC], [k |-> "partial", c |-> NilC],
+              [k |-> "full", c |-> Image(3)], [k |-> "full", c |-> Flipped(3)]}
+  /\ lock = "none"
+  /\ pc = [a \in Actors |-> Idle]
+  /\ buf = [a \in Actors |-> NilC] /\ cbuf = [a \in Actors |-> NilC]
+  /\ ret = [a \in Actors |-> NoRet]
+  /\ wimg = [w \in Wr |-> 0]
+  /\ crashes = 0 /\ inflight = "none" /\ used = {} /\ act = Label("Init", "", 0)
+SpecC23 == InitC23 /\ [][Next]_vars
+
+\* a call that succeeds was served a buffer whose checksum matched (block or restored backup) ...
+CorruptNeverDecoded == \A a \in Actors : (ret[a].res = "ok" /\ a \in Readers) => ret[a].valid
+\* ... and a block that does not verify and has no valid backup is never written (action property)
+UnverifiedNeverRewritten == [][(~Valid(blk) /\ ~CowValid) => blk' = blk]_vars
+C23Holds == (used = {}) => (CorruptNeverDecoded /\ NothingBaked /\ NoServeCorrupt)
 
 \* what a lookup started in this state by a fresh process and run alone returns
 FinalLookup ==
